@@ -1,5 +1,5 @@
 """C03 — encoding conforms to the Standard (structural and class-level clauses)."""
-import r_state, r_encclass, r_lookahead, r_surr
+import r_state, r_encclass, r_lookahead, r_surr, r_singlebyte
 
 MANIFEST = {
     'category': 'other',
@@ -13,7 +13,8 @@ MANIFEST = {
             'of EUC-JP and Shift_JIS (U+00A5 -> 5C, U+203E -> 7E, U+2212 -> A1DD / 817C, half-width katakana, U+0080 in Shift_JIS) occur for '
             'exactly the code points the Standard names and no other constant folding exists. Index pointer selection and every mapped byte '
             'pair of the default (search-the-decode-table) encoders are numerical and not decided; the fast/less-slow encode tables are '
-            'checked exhaustively under C17.',
+            'checked exhaustively under C17. ' 
+            '(D6, R-SINGLEBYTE, exhaustive data-vs-data) for each of the 28 single-byte Encoding statics the run parameters handed to SingleByteEncoder (code units mapped without a table look-up) mirror the const-evaluated decode table entry by entry, and the encoder\'s search order finds, for every code unit of the table, the first pointer holding it (the Standard\'s index-pointer rule).',
     'note': 'Trusted: rustc MIR, mirx, rule library, the Standard\'s encoder steps as transcribed in rules/r_state.py and rules/r_encclass.py.',
     'technique': 'abstract interpretation (exact interval sets, opaque table predicates) over MIR + path-summary pairing rules + value provenance',
 }
@@ -30,4 +31,5 @@ def run(rep, facts, tier):
         rep.floor('R-LOOKAHEAD', 'surrogate look-ahead sites', n, 4, c)
         n = r_surr.run(rep, f, c, 'R-SURR', lambda nm: 'Encoder::' in nm or nm.startswith(('handles::Utf16Source', 'handles::Utf8Source')))
         rep.floor('R-SURR', 'surrogate tests on the encoder side', n, 10, c)
+        r_singlebyte.run(rep, f, c)
     return ('other', MANIFEST['text'], [])
